@@ -167,6 +167,7 @@ class Gen:
         self.drew_nul = False
         self.ck = None            # kind of the last start/end arguments given to a SRFI 130 procedure
         self.bang = False         # may this history use (chibi io) utf8->string! ?
+        self.lit80 = False        # may it contain a literal with the escape \\x80; (known reader defect) ?
 
     # ---- random material
     def rchar(self, w=None):
@@ -282,7 +283,7 @@ class Gen:
     def op_string(self):
         t = self.rng.randrange(3)
         cps = self.rcps()
-        e, st = self.build(cps, lit80=True)
+        e, st = self.build(cps, lit80=self.lit80)
         route = e.split(" ")[0].strip("(") if e[0] == "(" else "literal"
         if route == "string-copy":
             route = "literal-copy"
@@ -1036,7 +1037,8 @@ class Gen:
         self.v = []
         inits = []
         nstr = r.choice((1, 2, 3, 3))
-        self.bang = r.random() < 0.1
+        self.bang = r.random() < 0.06
+        self.lit80 = r.random() < 0.05
         for i in range(3):
             cps = self.rcps() if i < nstr else []
             e, st = self.build(cps)
